@@ -20,6 +20,14 @@ type stubInfo struct {
 	seq     int32
 }
 
+// results of the previous calls of the sequential phase, held by the caller and looked at again after the next call
+var c03held struct {
+	heldMsg  *messages.Encrypted
+	heldBody []byte
+	heldPkt  []byte
+	heldPkt0 []byte
+}
+
 func (s *stubInfo) GetSessionID() int64  { return s.session }
 func (s *stubInfo) GetSeqNo() int32      { return s.seq }
 func (s *stubInfo) GetServerSalt() int64 { return s.salt }
@@ -155,6 +163,10 @@ func c03out(c *wk.Ctx, idx int, info *stubInfo, msgID int64, body []byte, ack bo
 		c.Viol("C03", idx, "out/error", err.Error(), len(body))
 		return
 	}
+	if c03held.heldPkt != nil && !bytes.Equal(c03held.heldPkt, c03held.heldPkt0) {
+		c.Viol("C03", idx, "out/earlier-packet-changed", fmt.Sprintf("the packet (%d bytes) sealed by the previous call changed when the next message (body %d bytes) was sealed", len(c03held.heldPkt0), len(body)), nil)
+	}
+	c03held.heldPkt, c03held.heldPkt0 = pkt, append([]byte(nil), pkt...)
 	in, oerr := mtp.Open(info.key, pkt, 0)
 	if oerr != nil {
 		sig := "out/not-openable"
@@ -222,6 +234,12 @@ func c03in(c *wk.Ctx, idx int, r *rand.Rand, info *stubInfo, body []byte, ks str
 	if !bytes.Equal(pkt, p0) {
 		c.Viol("C03", idx, "in/modified-input", "", nil)
 	}
+	// the message opened by the previous call is still in the caller's hands (the receive loop hands it on to
+	// another goroutine): opening this packet must not have changed it
+	if c03held.heldMsg != nil && !bytes.Equal(c03held.heldMsg.Msg, c03held.heldBody) {
+		c.Viol("C03", idx, "in/earlier-message-changed", fmt.Sprintf("the body (%d bytes) of the message opened by the previous call changed when the next packet (body %d bytes) was opened", len(c03held.heldBody), len(body)), nil)
+	}
+	c03held.heldMsg, c03held.heldBody = m, append([]byte(nil), body...)
 	c.Distinct("in", len(body), ks)
 }
 
